@@ -194,15 +194,8 @@ class StmtMixin:
 
     def setitem(self, obj, idx, v, st, fr):
         if isinstance(obj, VRef) and obj.cls == "dict":
-            kt, vt = obj.elem
-            kb, vb = base_tag(kt), base_tag(vt)
-            dom = st.read("$dom." + kb, obj.e, f"set[{kb}]")
-            mp = st.read(f"$map.{kb}.{vb}", obj.e, f"map[{kb},{vb}]")
-            st.write("$dom." + kb, obj.e,
-                     z3.Store(dom, self.to_z3(idx), True), f"set[{kb}]")
-            st.write(f"$map.{kb}.{vb}", obj.e,
-                     z3.Store(mp, self.to_z3(idx), self.to_z3(v)),
-                     f"map[{kb},{vb}]")
+            self.nonnull(obj, st, fr, "[]=")
+            self.dict_setitem(obj, idx, v, st, fr)
             return
         if isinstance(obj, VRef) and obj.cls not in (None, "list"):
             kind, info, fn = self.uni.repo.find_attr(obj.cls, "__setitem__")
@@ -224,15 +217,7 @@ class StmtMixin:
                     raise Unsupported("del slice")
                 idx = self.ev(t.slice, st, fr)
                 if isinstance(obj, VRef) and obj.cls == "dict":
-                    kt, vt = obj.elem
-                    kb = base_tag(kt)
-                    dom = st.read("$dom." + kb, obj.e, f"set[{kb}]")
-                    if not self.dec.branch(st, z3.Select(dom,
-                                                         self.to_z3(idx))):
-                        raise PyRaise(VExc("KeyError"))
-                    st.write("$dom." + kb, obj.e,
-                             z3.Store(dom, self.to_z3(idx), False),
-                             f"set[{kb}]")
+                    self.dict_delitem(obj, idx, st, fr)
                     continue
                 if isinstance(obj, VRef) and obj.cls not in (None, "list"):
                     kind, info, fn = self.uni.repo.find_attr(obj.cls,
@@ -366,8 +351,12 @@ class StmtMixin:
 
     def ex_For(self, s, st, fr):
         it = self.ev(s.iter, st, fr)
-        n, elem, conc = self.iter_desc(it, st, fr)
         spec, ordinal = self.loop_spec(s, fr)
+        un = self.unordered_desc(it, st, fr)
+        if un is not None:
+            self.for_unordered(s, st, fr, un[0], un[1], spec, ordinal)
+            return
+        n, elem, conc = self.iter_desc(it, st, fr)
         if conc is not None and spec is None:
             broke = False
             for x in conc:
@@ -410,7 +399,7 @@ class StmtMixin:
         head = None
         entry = st.snapshot()
         # 1. initiation
-        for label, text in spec.invariants:
+        for label, text, *_ in spec.invariants:
             g = self.truth(self.ev(parse_expr(text), st, inv_frame(
                 z3.IntVal(0))), st)
             self.oblige(fr, st, "inv-init", f"{tag}.{label}", g)
@@ -419,7 +408,7 @@ class StmtMixin:
         head = st.snapshot()
         k = fresh("k", INT)
         st.assume(z3.And(0 <= k, k <= n))
-        for label, text in spec.invariants:
+        for label, text, *_ in spec.invariants:
             st.assume(self.truth(self.ev(parse_expr(text), st, inv_frame(k)),
                                  st))
         if self.dec.branch(st, k < n):
@@ -430,7 +419,11 @@ class StmtMixin:
                 pass
             except _Break:
                 return
-            for label, text in spec.invariants:
+            for label, text, *lem in spec.invariants:
+                for n, lt in enumerate(lem[0] if lem else ()):
+                    g = self.truth(self.ev(parse_expr(lt), st,
+                                           inv_frame(k + 1)), st)
+                    self.oblige(fr, st, "inv-lemma", f"{tag}.{label}.{n}", g)
                 g = self.truth(self.ev(parse_expr(text), st,
                                        inv_frame(k + 1)), st)
                 self.oblige(fr, st, "inv-pres", f"{tag}.{label}", g)
@@ -467,6 +460,8 @@ class StmtMixin:
             return VBool(fresh(name, BOOL))
         if isinstance(v, VStr):
             return VStr(fresh(name, STR))
+        if isinstance(v, VAtom):
+            return VAtom(fresh(name, ATOM))
         if isinstance(v, VRef):
             return VRef(fresh(name, Ref), v.cls, v.elem)
         if isinstance(v, VEnum):
@@ -518,11 +513,18 @@ class StmtMixin:
                 f"while loop #{ordinal} @{s.lineno} has no invariant")
         tag = f"L{ordinal}"
 
+        head = None
+        entry = st.snapshot()
+
         def sframe():
             sub = Frame(fr.func, fr.cls, fr.contract, env=dict(fr.env),
                         spec=True)
             sub.old = fr.old
+            sub.entry_state = entry
+            sub.head_state = head if head is not None else st
+            sub.head_env = head_env
             return sub
+        head_env = None
         if spec.unroll is not None:
             self.bounded = True
             for i in range(spec.unroll + 1):
@@ -539,12 +541,13 @@ class StmtMixin:
                 except _Break:
                     return
             return
-        for label, text in spec.invariants:
+        for label, text, *_ in spec.invariants:
             g = self.truth(self.ev(parse_expr(text), st, sframe()), st)
             self.oblige(fr, st, "inv-init", f"{tag}.{label}", g)
         self.havoc_loop(s, st, fr, spec)
         head = st.snapshot()
-        for label, text in spec.invariants:
+        head_env = dict(fr.env)
+        for label, text, *_ in spec.invariants:
             st.assume(self.truth(self.ev(parse_expr(text), st, sframe()), st))
         var0 = None
         if spec.decreases:
@@ -558,7 +561,10 @@ class StmtMixin:
                 pass
             except _Break:
                 return
-            for label, text in spec.invariants:
+            for label, text, *lem in spec.invariants:
+                for n, lt in enumerate(lem[0] if lem else ()):
+                    g = self.truth(self.ev(parse_expr(lt), st, sframe()), st)
+                    self.oblige(fr, st, "inv-lemma", f"{tag}.{label}.{n}", g)
                 g = self.truth(self.ev(parse_expr(text), st, sframe()), st)
                 self.oblige(fr, st, "inv-pres", f"{tag}.{label}", g)
             if spec.decreases:
